@@ -16,12 +16,14 @@ import (
 	"fmt"
 	"io"
 	"math/rand"
+	"reflect"
 	"runtime"
 	"strconv"
 	"strings"
 	"sync"
 	"sync/atomic"
 	"time"
+	"unsafe"
 
 	"src.elv.sh/pkg/eval"
 	"src.elv.sh/pkg/eval/errs"
@@ -47,6 +49,7 @@ type event struct {
 	K       string     `json:"k"`
 	V       int        `json:"v"`
 	R       string     `json:"r"`
+	G       string     `json:"g"` // readerGone flag observed after a failed write: t | f | u
 	Scripts [][]op     `json:"scripts,omitempty"`
 	Logged  []bool     `json:"logged,omitempty"`
 	Res     *[]resItem `json:"res,omitempty"`
@@ -84,7 +87,7 @@ type pipeRun struct {
 	Procs   int      `json:"procs"`
 	Yield   []int64  `json:"yield"`
 	tr      *tracer
-	caps    []int  // measured cap(fm.Port(1).Chan) per harness stage with a piped output
+	caps    []int // measured cap(fm.Port(1).Chan) per harness stage with a piped output
 	capMu   sync.Mutex
 }
 
@@ -123,6 +126,22 @@ func valueLabel(v any) int {
 		}
 	}
 	return -2
+}
+
+// readerGoneFlag projects the unexported Port.readerGone (*atomic.Bool) of an output port: "t" | "f", or
+// "u" when the field does not exist in this shape (then the specification does not constrain it).
+func readerGoneFlag(p *eval.Port) string {
+	if p == nil {
+		return "u"
+	}
+	v := reflect.ValueOf(p).Elem().FieldByName("readerGone")
+	if !v.IsValid() || v.Kind() != reflect.Pointer || v.IsNil() || v.Type().Elem() != reflect.TypeOf(atomic.Bool{}) {
+		return "u"
+	}
+	if (*atomic.Bool)(unsafe.Pointer(v.Pointer())).Load() {
+		return "t"
+	}
+	return "f"
 }
 
 func outcome(err error) string {
@@ -179,7 +198,11 @@ func stageCmd(fm *eval.Frame, id, s int) error {
 			tr.log(event{Ev: "Start", S: s, K: "putb", V: o.V})
 			_, err := fm.ByteOutput().WriteString(line)
 			r := outcome(err)
-			tr.log(event{Ev: "End", S: s, K: "putb", V: o.V, R: r})
+			g := "u"
+			if r == "gone" {
+				g = readerGoneFlag(fm.Port(1))
+			}
+			tr.log(event{Ev: "End", S: s, K: "putb", V: o.V, R: r, G: g})
 			if err != nil {
 				return err
 			}
